@@ -1,7 +1,7 @@
 CONSTANTS
   KDoms <- KDomsQuads
   KMax = 2
-  MaxSteps = 3
+  MaxSteps = 2
   WithObs = FALSE
   PurgeLast = FALSE
   Kinds = {"pos", "fail", "cut", "ask"}
